@@ -11,6 +11,7 @@ import (
 	"github.com/glebziz/fs_db"
 	"github.com/glebziz/fs_db/internal/model"
 	"github.com/glebziz/fs_db/internal/verif/refmodel"
+	"github.com/glebziz/fs_db/internal/verif/sctx"
 )
 
 // Op is one step of a generated program.
@@ -25,6 +26,11 @@ type Op struct {
 	Writes []int  `json:"writes,omitempty"` // create: sizes of the Write calls
 	Shape  string `json:"shape,omitempty"`  // setr: reader shape (plain, byte, short, zero, dataeof)
 	N      int    `json:"n,omitempty"`      // bg: number of background steps; gc: repetitions
+	// Ctx: the context the caller passes. "" = one long-lived background context; "percall" = a
+	// context of its own for this call, cancelled as soon as the call (for Create: Close, for
+	// GetReader: the reader's Close) has returned, the `ctx, cancel := ...; defer cancel()` idiom;
+	// "dead" = a context that is already cancelled when the call is made.
+	Ctx string `json:"ctx,omitempty"`
 }
 
 func (o Op) tx() int { return o.Tx - 1 }
@@ -39,6 +45,9 @@ func (o Op) String() string {
 	}
 	if o.ID != 0 {
 		s += fmt.Sprintf(" #%d(%dB)", o.ID, o.Size)
+	}
+	if o.Ctx != "" {
+		s += " ctx=" + o.Ctx
 	}
 	if o.K == "begin" {
 		s += fmt.Sprintf(" level=%d", o.Level)
@@ -153,6 +162,16 @@ var levels = []model.TxIsoLevel{fs_db.IsoLevelReadUncommitted, fs_db.IsoLevelRea
 // apply executes a data operation against the implementation.
 func (a *actors) apply(ctx context.Context, o Op) OpResult {
 	var r OpResult
+	switch o.Ctx {
+	case "percall":
+		c, cancel := sctx.WithCancel(ctx)
+		defer cancel()
+		ctx = c
+	case "dead":
+		c, cancel := sctx.WithCancel(ctx)
+		cancel()
+		ctx = c
+	}
 	switch o.K {
 	case "begin":
 		var t fs_db.Tx
